@@ -36,11 +36,16 @@ Theorem C18_cache_schema_total : forall D, wf_total D -> forall st m, In m (d_ms
 Proof. exact cache_schema_total. Qed.
 Print Assumptions C18_cache_schema_total.
 
-(* ---- self-consistency of a successful reflection, for every well-formed descriptor set (wf_desc:
-   enums non-empty; split names of messages / enums / real oneofs pairwise distinct; JSON names of
-   the fields and exposed oneofs of a message distinct): distinct keys, no unlinked placeholder,
-   pairwise distinct property names in every object and oneof, every scalar format known, every
-   reference names an entry of the set *)
+(* ---- self-consistency of a successful reflection, under the hypothesis wf_desc:
+     (1) enums non-empty (protodesc guarantees it),
+     (2) split names of messages / enums / real oneofs pairwise distinct (NOT guaranteed by a linked set:
+         C18_split_name_collision_refuted),
+     (3) per message, the JSON names of its fields and of its exposed oneofs are pairwise distinct (protoc
+         guarantees this for the fields among themselves only: C18_exposed_oneof_name_clash_refuted).
+   Conclusion: distinct keys, no unlinked placeholder, every scalar format known, every reference names
+   an entry of the set, and the reader introduces no duplicate property name: the names of an object's
+   properties are pairwise distinct GIVEN (3). Clause "property names are unique" of C18 is therefore
+   proved only relative to (3); without it the witness above refutes it. *)
 Theorem C18_reflect_ok_guarantees : forall D, wf_desc D -> forall fs S,
   reflect D fs = Ok S ->
   keys_distinct S = true /\ set_importable S = true /\ set_closed S = true /\
@@ -148,6 +153,34 @@ Proof.
     split; [vm_compute; reflexivity|]. split; vm_compute; reflexivity.
 Qed.
 Print Assumptions C18_flatten_names_refuted.
+
+(* 4. (found by the independent audit) protoc checks JSON-name conflicts between fields only: an exposed
+   oneof named foo_bar gets the property name lowerCamel("foo_bar") = "fooBar", the same as the field
+   fooBar. Split names are distinct, enums non-empty, field JSON names distinct, field numbers distinct:
+   only the third clause of wf_desc (which also ranges over exposed oneofs) fails. *)
+Definition oneof_clash_desc : desc :=
+  {| d_msgs := [
+       Msg (bytes "p.v1.M") (bytes "p.v1") [bytes "M"]
+         [Fld (bytes "a") (bytes "a") 1 KString CSingle (Some 0%N) TNone ex_fopts [];
+          Fld (bytes "fooBar") (bytes "fooBar") 2 KString CSingle None TNone ex_fopts []]
+         [Oneof (bytes "foo_bar") (bytes "fooBar") false (Some true) []] None None []];
+     d_enums := [];
+     d_files := [File (bytes "p/v1/a.proto") (bytes "p.v1") [bytes "p.v1.M"] []] |}.
+
+Theorem C18_exposed_oneof_name_clash_refuted :
+  wf_total oneof_clash_desc /\ NoDup (all_keys oneof_clash_desc) /\
+  (forall m, In m (d_msgs oneof_clash_desc) -> NoDup (map f_json (m_fields m)) /\ NoDup (map f_num (m_fields m))) /\
+  exists S ps, reflect oneof_clash_desc (d_files oneof_clash_desc) = Ok S /\
+    lookup S (bytes "p.v1", bytes "M") = Some (Linked (RObject (bytes "M") [] None [] ps)) /\
+    names_unique_b ps = false /\ set_consistent oneof_clash_desc S = false.
+Proof.
+  split; [split; [intros e []|intros e m []]|].
+  split; [apply nodup_refs_NoDup; vm_compute; reflexivity|].
+  split.
+  - intros m [<-|[]]. split; [apply nodup_str_NoDup|apply nodup_N_NoDup]; vm_compute; reflexivity.
+  - eexists. eexists. split; [vm_compute; reflexivity|]. split; [vm_compute; reflexivity|]. split; vm_compute; reflexivity.
+Qed.
+Print Assumptions C18_exposed_oneof_name_clash_refuted.
 
 (* ---- non-vacuity: a self-recursive and a mutually recursive message, an enum, a bool const rule,
    a flattened (non-cyclic) field; wf_total holds and the reader succeeds *)
